@@ -285,4 +285,3 @@ func c06GenQuicPlan(t *rapid.T) *c06QuicPlan {
 	p.Style = rapid.SampledFrom([]string{"pool", "pool", "ctor"}).Draw(t, "style")
 	return p
 }
-
